@@ -9,6 +9,7 @@ import Driver.C04Cmd
 import Driver.C08Cmd
 import Driver.C10Cmd
 import Driver.GateCmd
+import Driver.ServiceCmd
 
 def main (args : List String) : IO UInt32 :=
   match args with
@@ -25,4 +26,6 @@ def main (args : List String) : IO UInt32 :=
   | ["corr", "c08"] => Driver.lineLoop Driver.c08Line
   | ["corr", "c10"] => Driver.lineLoop Driver.c10Line
   | ["corr", "gates"] => Driver.lineLoop Driver.gateLine
+  | ["corr", "prove"] => Driver.lineLoop Driver.proveLine
+  | ["corr", "req"] => Driver.lineLoop Driver.reqLine
   | _ => do IO.eprintln "usage: driver <trace|corr> …"; pure 2
